@@ -230,7 +230,7 @@ Proof. repeat split; eexists; (split; [vm_compute; reflexivity|]); repeat split;
 
 (* ---- uriIsUnreserved (UriNormalizeBase.c), its switch translated from the C source on every check: one case
    group, exactly the unreserved characters (is_unreserved_code).  Proof in Proofs/SwitchUnreserved.v. *)
-From UP Require Import Generated.SwitchTables Proofs.SwitchRefine Proofs.SwitchUnreserved.
+From UP Require Import Generated.SwitchTables Proofs.SwitchBase Proofs.SwitchUnreserved.
 
 Theorem C08_is_unreserved_switch :
   length t_is_unreserved = 1%nat
